@@ -8,6 +8,7 @@ CONSTANTS
   QCodes = @QCODES@
   KSet = @KS@
   RSet = @RS@
+  BoxCodes = @BOXES@
   Emit = @EMIT@
 INVARIANTS @INVS@
 CHECK_DEADLOCK FALSE
